@@ -225,7 +225,7 @@ class Sym:
         if h == 'variant' and base[2] == 'Continue' and el == '0':
             inner = base[1]
             if inner[0] == 'call' and isinstance(inner[1], str) and (inner[1].endswith('Try>::branch') or inner[1].endswith('Try::branch')):
-                return ('okof', inner[2][0])
+                return okof(inner[2][0])
         if h == 'bin' and base[1].endswith('WithOverflow') and el == '0':
             return fold_bin(('bin', base[1][:-len('WithOverflow')], base[2], base[3]))
         if el.startswith('['):
@@ -535,8 +535,15 @@ def simplify_proj(e):
         if b[0] == 'variant' and b[2] == 'Continue' and e[2] == '0':
             inner = b[1]
             if inner[0] == 'call' and isinstance(inner[1], str) and (inner[1].endswith('Try>::branch') or inner[1].endswith('Try::branch')):
-                return ('okof', inner[2][0])
+                return okof(inner[2][0])
     return e
+
+
+def okof(x):
+    """success payload of an Option/Result value; of a literal Ok(v) / Some(v) (an inlined helper's result) it is v itself"""
+    if isinstance(x, tuple) and x[0] == 'agg' and x[1].endswith(('Result::Ok', 'Option::Some')) and x[2]:
+        return x[2][0][1]
+    return ('okof', x)
 
 
 def fold_bin(e):
